@@ -162,6 +162,10 @@ type sobsJSON struct {
 	LateHandlers int      `json:"handlers_started_after_close"`
 	Panic        bool     `json:"panic"`
 	OpsPending   int      `json:"ops_pending"`
+	ConnsOpen    int      `json:"conns_open"`
+	OwnOpenAtRet int      `json:"own_endpoints_open_when_close_returned"`
+	PeerConns    int      `json:"connections_peers_still_hold"`
+	ConnsSeen    int      `json:"connections_of_the_target_seen"`
 	Ops          []string `json:"ops"`
 	Goroutines   int      `json:"goroutines_above_baseline"`
 	Ports        bool     `json:"ports_rebound"`
@@ -249,6 +253,27 @@ func runServer(in input) lib.Case {
 	sobsState.Unlock()
 	atomic.StoreInt64(&sobsState.processed, 0)
 	ov := target.VerifOverlay()
+	// every connection the target's router dials or accepts passes one of its schedule points
+	var tconnMu sync.Mutex
+	var tconns []network.Conn
+	network.SetVerifHook(func(point string, args ...interface{}) {
+		if len(args) == 0 || args[0] != interface{}(target.Router) {
+			return
+		}
+		var c network.Conn
+		switch point {
+		case "router.accepted":
+			c, _ = args[1].(network.Conn)
+		case "router.connected":
+			c, _ = args[2].(network.Conn)
+		}
+		if c != nil {
+			tconnMu.Lock()
+			tconns = append(tconns, c)
+			tconnMu.Unlock()
+		}
+	})
+	defer network.SetVerifHook(func(string, ...interface{}) {})
 	var o sobsJSON
 	var panicked int32
 	guard := func() {
@@ -333,10 +358,23 @@ func runServer(in input) lib.Case {
 	}
 	var closeRet int64
 	var firstClose *op
+	var ownOpen int32 = -1
 	doClose := func() string {
 		err := target.Close()
 		s := atomic.AddInt64(&sobsState.stamp, 1)
-		atomic.CompareAndSwapInt64(&closeRet, 0, s)
+		if atomic.CompareAndSwapInt64(&closeRet, 0, s) {
+			// at the instant the first Close returns, before anything settles: every connection the
+			// target has opened or accepted (seen at the router's schedule points) must be closed
+			tconnMu.Lock()
+			n := 0
+			for _, c := range tconns {
+				if closed, known := network.VerifConnClosed(c); known && !closed {
+					n++
+				}
+			}
+			tconnMu.Unlock()
+			atomic.StoreInt32(&ownOpen, int32(n))
+		}
 		if err != nil {
 			return "err"
 		}
@@ -508,6 +546,31 @@ func runServer(in input) lib.Case {
 	if n, ok := ov.VerifInstancesTry(); ok {
 		o.Instances, o.InstancesObs = n, true
 	}
+	// connections: the target's own endpoints at the instant Close returned, and the peer-side view -
+	// connections the other servers still hold to the target shortly afterwards
+	tconnMu.Lock()
+	o.ConnsSeen = len(tconns)
+	tconnMu.Unlock()
+	if o.Returned {
+		o.OwnOpenAtRet = int(atomic.LoadInt32(&ownOpen))
+		tid := target.ServerIdentity.GetID()
+		deadline := time.Now().Add(time.Second)
+		for {
+			left := 0
+			for _, sv2 := range servers[1:] {
+				left += sv2.Router.VerifConnections()[tid]
+			}
+			o.PeerConns = left
+			if left == 0 || time.Now().After(deadline) {
+				break
+			}
+			time.Sleep(2 * time.Millisecond)
+		}
+		if o.OwnOpenAtRet > 0 {
+			o.ConnsOpen += o.OwnOpenAtRet
+		}
+		o.ConnsOpen += o.PeerConns
+	}
 	o.Ports = true
 	o.Db = true
 	if o.Returned {
@@ -576,8 +639,8 @@ func runServer(in input) lib.Case {
 			ms = append(ms, fmt.Sprintf("SNewInstance %d", m.A))
 		}
 	}
-	sobs := fmt.Sprintf("(mkSobs %s %d %d %s %d %d %s %s)", lib.Bool(o.Returned), o.Instances, o.Late, lib.Bool(o.Panic),
-		o.OpsPending, o.Goroutines, lib.Bool(o.Ports), lib.Bool(o.Db))
+	sobs := fmt.Sprintf("(mkSobs %s %d %d %s %d %d %d %s %s)", lib.Bool(o.Returned), o.Instances, o.Late, lib.Bool(o.Panic),
+		o.OpsPending, o.ConnsOpen, o.Goroutines, lib.Bool(o.Ports), lib.Bool(o.Db))
 	coq := fmt.Sprintf("ServerClose %s %s %s", lib.NatList(o.Insts), lib.List(ms), sobs)
 	if heldStart != nil {
 		// validated against Net/StartClose.v
